@@ -29,7 +29,9 @@
 (*   ctx   budget of the request context handed to Sign: "wide" (longer     *)
 (*         than anything an endpoint can consume) or "tight" (shorter than  *)
 (*         one per-try timeout; only explored when no endpoint is of class  *)
-(*         "deadline", i.e. when every failing endpoint fails fast)         *)
+(*         "deadline", i.e. when every failing endpoint fails fast) or      *)
+(*         "none" (no deadline at all and no per-try timeout; explored      *)
+(*         under the same condition: Sign must still return)                *)
 (*   hist  what ELSE happens to TLS configuration in the same process:      *)
 (*         "none"; "before"/"between" (another client configuration is      *)
 (*         built from the CA files NOT in this signer's bundle, before the  *)
@@ -54,7 +56,7 @@ EXTENDS Integers, Sequences, FiniteSets, TLC
 CONSTANTS MaxN,         \* longest endpoint list explored
           Templates,    \* endpoint descriptors explored (records without certs/cm, with comment shapes sh)
           Bundles,      \* CA bundle variants explored: records [cas |-> set of CA names, lay |-> file layout]
-          Ctxs,         \* request-context budgets explored: subset of {"wide", "tight"}
+          Ctxs,         \* request-context budgets explored: subset of {"wide", "tight", "none"}
           Hists,        \* process histories explored: subset of {"none", "before", "between", "signer", "rotate"}
           BackoffCfgs,  \* backoff configurations explored: records [base, max, mult, jit] (jit in tenths)
           Attempts      \* attempt numbers explored by the backoff walk
@@ -117,7 +119,7 @@ NoEnv     == [ctx |-> "wide", hist |-> "none", loaded |-> {}, hdone |-> TRUE]
 InitCase == /\ bundle \in Bundles
             /\ \E c \in Ctxs : \E h \in Hists : env = [ctx |-> c, hist |-> h, loaded |-> {}, hdone |-> h = "none"]
             /\ \E n \in 0..MaxN : \E ts \in [1..n -> Templates] : eps = [m \in 1..n |-> Inst(ts[m], m)]
-            /\ env.ctx = "tight" => (env.hist = "none" /\ \A m \in 1..Len(eps) : eps[m].cls # "deadline")
+            /\ env.ctx \in {"tight", "none"} => (env.hist = "none" /\ \A m \in 1..Len(eps) : eps[m].cls # "deadline")
             /\ pc = "new" /\ i = 1 /\ contacted = <<>> /\ result = Pending /\ last = NoLbl
 InitBo   == /\ BackoffCfgs # {} /\ bundle = [cas |-> {}, lay |-> "none"] /\ env = NoEnv /\ eps = <<>> /\ pc = "bo" /\ i = 1
             /\ contacted = <<>> /\ result = Pending /\ last = NoLbl
@@ -224,7 +226,7 @@ P_C18 == [][C18_Step]_vars
 
 ---------------------------------------------------------------------------
 \* sanity of the design (invariants of the bounded model)
-TypeOK == /\ env.ctx \in {"wide", "tight"} /\ env.loaded \subseteq AllCAs
+TypeOK == /\ env.ctx \in {"wide", "tight", "none"} /\ env.loaded \subseteq AllCAs
           /\ pc \in {"new", "loop", "returned", "refused", "bo"}
           /\ i \in 1..(MaxN + 1) /\ Len(contacted) <= MaxN
           /\ result.done \in BOOLEAN /\ result.err \in BOOLEAN
